@@ -210,13 +210,13 @@ PROPS = {
 
 LEVELS = {
     "C15": {
-        "text": "Theorems in Coq: the label is Chinese exactly when the message contains a CJK character of the source's class and English otherwise; a clause whose rule carried message m reads path, echo, label, m verbatim; every rule function that supports a message uses the message of its rule text when there is one and default wording only when there is none; the extractor returns exactly the explanations of the clauses that have one, in order, joined by the separator, for every number and order of Chinese-labelled, English-labelled and unlabelled clean clauses (proved via a lemma that splitting a join of separator-free pieces gives the pieces back). The go/ast syntax tree of GetJoinValidErrStr — the function that words every rule violation — is REGENERATED FROM /repo ON EVERY RUN and proved (loop invariant over the range loop with continue) to compute the model's clause text for every name, echo and list of further texts; a parser-labelled custom message goes through it verbatim behind its one label.",
+        "text": "Theorems in Coq: the label is Chinese exactly when the message contains a CJK character of the source's class and English otherwise; a clause whose rule carried message m reads path, echo, label, m verbatim; every rule function that supports a message uses the message of its rule text when there is one and default wording only when there is none; the extractor returns exactly the explanations of the clauses that have one, in order, joined by the separator, for every number and order of Chinese-labelled, English-labelled and unlabelled clean clauses (proved via a lemma that splitting a join of separator-free pieces gives the pieces back). The go/ast syntax tree of GetJoinValidErrStr — the function that words every rule violation — is REGENERATED FROM /repo ON EVERY RUN and proved (loop invariant over the range loop with continue) to compute the model's clause text for every name, echo and list of further texts; a parser-labelled custom message goes through it verbatim behind its one label. From the source text of 24 rule functions (C15_message_discipline_from_source): what a rule function writes is nothing, or ONE clause whose explanation is the rule's message alone when the rule text has one and the default wording only when it has none (kind errors and unreadable rules come before the message is looked at); GetJoinFieldErr computes the clause of an unreadable rule; and GetOnlyExplainErr itself, from its syntax tree, computes the model's extractor on EVERY text (loop invariant over the clauses) and never slices out of range.",
         "design_ref": "DESIGN.md section 5, C15",
         "note": "Trusted: Coq kernel, translator (labels, separator, CJK class; minigo.go) and the semantics of Model/GoParse.v (strings.Builder as text, strings.Contains, range/continue), correspondence harness. The extractor's domain excludes echoes/messages that contain the separator or an earlier label (no escaping exists).",
         "technique": "Coq proof (string-splitting lemmas for a two-byte separator, per-rule case analysis) + exact-text and extractor correspondence evaluated in Coq",
     },
     "C08": {
-        "text": 'Theorems in Coq: for ANY cache whose loads return nothing or a value stored under that key, every history of lookups over any (type, tag name) keys returns the fresh analysis, and the field loop run on the cached analysis equals the cache-free validation; an always-miss cache, an unbounded map and an LRU of any capacity (0 included) satisfy the hypothesis; the key carries the tag name. The LRU here is the abstract LRU that cache.go refines (C09). Tied by histories over more types than capacity under eight cache configurations.',
+        "text": 'Theorems in Coq: for ANY cache whose loads return nothing or a value stored under that key, every history of lookups over any (type, tag name) keys returns the fresh analysis, and the field loop run on the cached analysis equals the cache-free validation; an always-miss cache, an unbounded map and an LRU of any capacity (0 included) satisfy the hypothesis; the key carries the tag name. The LRU here is the abstract LRU that cache.go refines (C09). Tied by histories over more types than capacity under nine cache configurations (one of which lets a second caller of the same type run to completion from inside Store).',
         "design_ref": "DESIGN.md section 5, C08",
         "note": 'The walker is shown to use a struct type only through its analysis (on_fields_analysis). Trusted: Coq kernel, correspondence harness.',
         "technique": 'Coq proof (representation invariant over all lookup histories, generic in the cache) + multi-configuration history correspondence evaluated in Coq',
@@ -247,7 +247,7 @@ LEVELS = {
         "technique": 'Coq proof (induction on depth fuel with top-level helpers, append-only buffer invariant, rule contract) + generator with by-construction expectations evaluated in Coq against implementation and model',
     },
     "C04": {
-        "text": "Theorems in Coq: under required/exist a struct reached through any number of pointer levels is validated under Parent.Field, slice/array elements under Parent.Field[i], map entries under Parent.Field[key], to any depth (fuel > depth); zero/nil sub-objects under exist are skipped silently; fields without required/exist never use the recursive call (the result is independent of it), unexported and time.Time fields are skipped; every clause found inside an object carries a path extending the object's path. Capstone (C04_reaches_exactly): a clause is written, at whatever depth, if and only if it is the contribution of a rule instance some address resolves to, where resolve (Spec/WalkAddr.v, structural on the address) enters a value only through a built-in required/exist on a non-empty value and names what it enters Parent.Field, Parent.Field[i], Parent.Field[key]. Tied by deep synthesised graphs with decoys and by-construction (path, marker) lists.",
+        "text": "Theorems in Coq: under required/exist a struct reached through any number of pointer levels (RemoveValuePtr, from its syntax tree regenerated on every run, computes the model's remove_ptr on every value) is validated under Parent.Field, slice/array elements under Parent.Field[i], map entries under Parent.Field[key], to any depth (fuel > depth); zero/nil sub-objects under exist are skipped silently; fields without required/exist never use the recursive call (the result is independent of it), unexported and time.Time fields are skipped; every clause found inside an object carries a path extending the object's path. Capstone (C04_reaches_exactly): a clause is written, at whatever depth, if and only if it is the contribution of a rule instance some address resolves to, where resolve (Spec/WalkAddr.v, structural on the address) enters a value only through a built-in required/exist on a non-empty value and names what it enters Parent.Field, Parent.Field[i], Parent.Field[key]. Tied by deep synthesised graphs with decoys and by-construction (path, marker) lists.",
         "design_ref": "DESIGN.md section 5, C04",
         "note": 'Trusted as C02. Reach is the resolve function of Spec/WalkAddr.v (an independent, fuel-free, buffer-free definition) plus the per-construct equations.',
         "technique": 'Coq proof (induction on depth fuel with top-level helpers, append-only buffer invariant, rule contract) + generator with by-construction expectations evaluated in Coq against implementation and model',
@@ -282,11 +282,13 @@ LEVELS = {
                 "merge loop meets the four clauses of the property and is the only list that does (C06_merge, C06_merge_unique); the tag scanner reads "
                 "back every conventional literal (C06_scan_format); for every abstract file - any number and interleaving of raw text and fields - the "
                 "areas applied from the last to the first write exactly the file whose annotated fields carry the merge and whose other bytes are "
-                "unchanged (C06_splice_frame); the scanners are written for the regex trees regenerated from parse.go (C06_regex_ref). The model is tied "
+                "unchanged (C06_splice_frame); the scanners are written for the regex trees regenerated from parse.go (C06_regex_ref). The go/ast syntax trees of "
+                "tagItems.override (two nested loops with break, append, slices) and tagItems.format are REGENERATED FROM /repo ON EVERY RUN and proved, each loop by "
+                "an invariant, to compute the model's merge and formatting on every pair of tag lists. The model is tied "
                 "to the code by comparing areas and output bytes of generated files, through the library and the CLI, inside Coq.",
         "design_ref": "DESIGN.md section 5, C06",
         "note": "PARTIAL: go/parser is not modelled (the model starts from the spans it returns, checked against file.ParseFile on every generated file). "
-                "Trusted: Coq kernel + vm_compute; translator (three regexes); correspondence harness. Findings outside the theorem's domain: literal "
+                "Trusted: Coq kernel + vm_compute; translator (three regexes; minigo.go) and the semantics of Model/GoTags.v (slices as immutable lists); correspondence harness. Findings outside the theorem's domain: literal "
                 "empty / interpreted / multi-line is never rewritten; a back quote earlier on the literal's line overwrites the field type; a back quote "
                 "in an injected value breaks the output (C06_empty_literal_refuted, C06_backquote_in_type_refuted).",
         "technique": "Coq proof (induction over the abstract file with a byte prefix invariant; association-list reasoning for the merge) + "
@@ -295,7 +297,8 @@ LEVELS = {
     "C07": {
         "text": "Theorems in Coq: override is idempotent under distinct keys, inject_file is idempotent and the domain is closed under it, a run on an "
                 "already processed file writes the bytes it found, a file without areas is written back unchanged, the n-th run for every n >= 1 writes "
-                "the bytes of the first, and a second -d / -p run over files that each settle changes nothing. Tied to the code by 2..5 repeated runs "
+                "the bytes of the first, and a second -d / -p run over files that each settle changes nothing; the override whose idempotence is stated is the "
+                "source text's (C07_merge_from_source: its syntax tree, regenerated on every run, computes the model's override). Tied to the code by 2..5 repeated runs "
                 "mixing library / -f / -d / -p on generated files, replayed in Coq.",
         "design_ref": "DESIGN.md section 5, C07",
         "note": "PARTIAL: go/parser is not modelled; re-parsing the tool's output is represented by the abstract file after injection (checked on every "
@@ -320,11 +323,17 @@ LEVELS = {
                 "ints separators, unique as NoDup, prefix/suffix with protecting quotes stripped); the date layout builder equals the documented layout "
                 "for every mask and separator triple; the re pattern extraction returns the text between the protecting quotes. The go/ast syntax tree of "
                 "ToStr (the canonical rendering in/unique compare by) is REGENERATED FROM /repo ON EVERY RUN and proved (type switch, strconv calls) to compute "
-                "the model's to_str on every scalar value. Oracle-backed rules: wiring proved, acceptance delegated.",
+                "the model's to_str on every scalar value; so are 19 rule functions (Phone, Email, IDCard, Ip, Ipv4, Ipv6, Year, Year2Month, Date, Prefix, Suffix, Int, "
+                "Float, Json, File, Dir, In, Include and the in() they share, with CheckFieldIsStr): each writes exactly the predicted text for every rule text, "
+                "names and value of any kind — the right recogniser, IP family test, layout mask and separator, kind dispatch, option list and comparison — and "
+                "writes nothing exactly when the model's rule function reports no clause (in(): for every comparison function, by induction over the options). "
+                "Oracle-backed rules: wiring proved, acceptance delegated.",
         "design_ref": "DESIGN.md section 5, C05",
         "note": "PARTIAL: ip/ipv4/ipv6, year/year2month/date/datetime, re, json, file, dir delegate membership to the standard library (oracles, listed); "
                 "in-builder round trip proved for options without quotes/slashes only (quoted options: correspondence). Trusted: Coq kernel, translator "
-                "(regex trees; minigo.go) and the semantics of Model/GoToStr.v (strconv.FormatFloat's text is a field of the model's float value), correspondence harness.",
+                "(regex trees; minigo.go) and the semantics of Model/GoToStr.v (strconv.FormatFloat's text is a field of the model's float value) and Model/GoRule.v "
+                "(calls mean the callees' models; net.ParseIP / time.Parse / json.Valid / os.Stat are the oracle tables; function literals of the form return e are values), "
+                "correspondence harness. Ints, Unique, Re, Datetime are hand-modelled.",
         "technique": "Coq proof (regular-language equivalences via Brzozowski derivatives and a two-state scanner; case analysis) + correspondence evaluated in Coq",
     },
     "C20": {
@@ -349,12 +358,12 @@ LEVELS = {
                 "stated set, and at most one clause; the verdict depends on the measure only (width, signedness irrelevant). strconv.Itoa then Atoi is "
                 "the identity on every int64, so for every pair of int64 bounds the builder-written text key=lo~hi|msg is read back as exactly those "
                 "bounds and judged by them. The go/ast syntax trees of validInputSize and eq are REGENERATED FROM /repo ON EVERY RUN and, under a stated "
-                "semantics of the Go forms they use, proved to compute the model for every bound, value and mode; so are the eight rule functions To, OTo, Ge, Gt, Le, Lt, Eq, NoEq themselves (a call meaning the callee's model): each writes exactly the predicted text — right bound, closed/open mode, custom message or default wording — and writes nothing exactly when the model's rule function reports no clause. A finite 8-bit sweep through the rule "
+                "semantics of the Go forms they use, proved to compute the model for every bound, value and mode; so are the eight rule functions To, OTo, Ge, Gt, Le, Lt, Eq, NoEq themselves (a call meaning the callee's model): each writes exactly the predicted text — right bound, closed/open mode, custom message or default wording — and writes nothing exactly when the model's rule function reports no clause; parseTagTo (the bound reader of to / oto) computes the model's parse_tag_to on every text and ReflectKindIsNum is the kind test on every kind name. A finite 8-bit sweep through the rule "
                 "text is proved by computation. Model also tied to the code by the complete 8-bit sweep and boundary cases evaluated in Coq.",
         "design_ref": "DESIGN.md section 5, C01",
         "note": "Trusted: Coq kernel + vm_compute; translator (rule table); correspondence harness; reflect/strconv/utf8 modelled at the calls used. "
                 "Trusted in addition: the MiniGo translator (harness/cmd/extract/minigo.go, one constructor per go/ast node) and the semantics of Model/GoSize.v "
-                "(int/int64 as Z, uint64(int) as mod 2^64, float64(int) exact) and of Model/GoRule.v (calls of ParseValidNameKV, validInputSize, eq, GetJoinValidErrStr, ToStr mean their models, each with its own from-source theorem; strconv.Atoi, parseTagTo hand-modelled; unit text and GetJoinFieldErr text abstract).",
+                "(int/int64 as Z, uint64(int) as mod 2^64, float64(int) exact) and of Model/GoRule.v (calls of ParseValidNameKV, validInputSize, eq, GetJoinValidErrStr, ToStr mean their models, each with its own from-source theorem; strconv.Atoi hand-modelled; unit text and GetJoinFieldErr text abstract).",
         "technique": "Coq proof (case analysis + linear arithmetic over Z, digit induction for Itoa/Atoi, finite sweep by vm_compute) + source-to-Gallina translator with staged symbolic execution proved equal to the model + model-vs-implementation correspondence evaluated in Coq",
     },
     "C10": {
@@ -418,6 +427,29 @@ _ADDED_STREAMS = {
     "C18": "Specimens include strings with blanks, '+', '%', a tab, four-byte characters and a float32 that is no dyadic fraction; the zero value of every specimen goes through all presentations (nothing may be reported); the struct presentation is sometimes primed by a call with another rule for the same field.",
     "C19": "Generated files may start with a byte order mark and contain empty declaration groups.",
 }
+_PRIMING = ("Before one measured call in three the harness makes unrelated calls and drops their results: refused calls (nil / unsupported source) "
+            "that carry rules, accepted calls with a do-nothing function under every built-in rule name, the exported text helpers on rare branches; "
+            "state surviving in a pool, cache or buffer shows as a foreign or missing clause.")
+_ROUND5 = {
+    "C01": "Slices with spare capacity and re-sliced windows (the measure is the length); every clause of the result must belong to the case's one rule instance. " + _PRIMING,
+    "C02": "Directed shapes: arrays of structs (all zero / half zero / non-zero), maps of structs keyed by bool / float64 / int8 / uint16, pointers to pointers to structs, embedded named scalars and an embedded struct; non-JSON strings of 255 / 256 / 257 bytes under json. " + _PRIMING,
+    "C03": "Directed shapes under required / exist: arrays of structs, maps of structs keyed by other kinds, pointers to pointers (inner level set, nil, outer nil), embedded fields. " + _PRIMING,
+    "C04": "Directed shapes: arrays of structs (all zero skipped under exist), maps of structs keyed by bool / float64 / int8 / uint16 (the key is part of the path), pointers to pointers, embedded fields. " + _PRIMING,
+    "C05": "Separator characters inside e-mail parts (comma, star, brackets, slash, quote). " + _PRIMING,
+    "C06": "The directory handed to -d has a name a glob would interpret (d[v1], d*x, d?).",
+    "C08": "A ninth cache configuration lets a second caller of the same type run to completion from inside Store; a per-call override together with a per-call function (StructForFns with a tag). " + _PRIMING,
+    "C09": "In the third presentation the abstract value 2 is stored as the nil interface.",
+    "C11": _PRIMING,
+    "C12": _PRIMING,
+    "C13": "Closed invalid regular expressions (re='[', re='a(b' ...) occur several times per process. " + _PRIMING,
+    "C15": "Rules whose argument has CJK characters with ASCII messages; file / dir against existing paths of the other sort and missing paths. " + _PRIMING,
+    "C16": _PRIMING,
+    "C17": "Empty group members written as bare URL keys (no '='). " + _PRIMING,
+    "C18": "Every string specimen x each of its rules x every spelling of the value in a query (QueryEscape, %20, raw); a specimen with a blank inside; embedded named scalars against Var on the scalar. " + _PRIMING,
+    "C20": "Named numeric types with String() / Error() methods and time.Duration as fields, elements and map keys; unexported fields whose names start with a non-ASCII lower-case letter.",
+}
+for _p, _t in _ROUND5.items():
+    _ADDED_STREAMS[_p] = (_ADDED_STREAMS.get(_p, "") + " " + _t).strip()
 for _p, _t in _ADDED_STREAMS.items():
     _r = PROPS[_p]["rule"]
     _i = _r.rfind("A case is") if "A case is" in _r else _r.rfind(" distinct")
